@@ -66,11 +66,14 @@ func BigDecimalFloatToUint(value *apd.Decimal) (uint64, error) {
 		return uint64(i), nil
 	}
 
-	bf, err := BigDecimalFloatToBigFloat(value)
+	// Too big for an int64: convert exactly through a big.Int (a uint64 has at
+	// most 20 decimal digits, so a bigger exponent cannot fit).
+	const maxUint64Base10Exponent = 20
+	bi, err := BigDecimalFloatToBigInt(value, maxUint64Base10Exponent)
 	if err != nil {
 		return 0, err
 	}
-	return BigFloatToUint(bf)
+	return BigIntToUint(bi)
 }
 
 // big.Float to other
